@@ -929,6 +929,23 @@ PARTS = {
                                     "namespace identifier a module uses is imported there (directly or via a star-imported sibling); in every types.py the dtype registrations are "
                                     "dependencies-first (an eagerly evaluated registration only mentions keys registered by earlier statements)")),
         C08_CHILD_REFS,
+        (G, "gosym_part", dict(name="c08_python_names", entry="internal/zzverif.C08PythonNames", args_quick=(0,), args_thorough=(1,),
+                               extra_quick=("-max-steps", "40000000"), extra_thorough=("-max-steps", "40000000"),
+                               required_sites=("generation-does-not-panic", "generation-succeeds", "class-defined-once-per-module", "python-name-resolves",
+                                               "union-serializer-class-resolves", "union-option-names-a-tag-of-its-class", "name-imported-from-types-is-defined-there",
+                                               "one-types-module-per-namespace"),
+                               assumptions=["iocommon.CopyEmbeddedStaticFiles replaced by a no-op under gosym (the runtime modules are not read)",
+                                            "model family of c08_cpp_package (quick: no / all definition kinds; thorough: all 16 subsets; import shapes x protocols x symbolic generateNDJson) "
+                                            "plus, under the unions feature, in every namespace: a named union with a case that is a vector of an anonymous union, a named vector of a union, "
+                                            "a record with fields of both, and protocol steps of them",
+                                            "emitted Python read back line by line (zz_c08_pynames.go): class statements, `X.Tag = type(...)` assignments, enum members, column-0 alias "
+                                            "statements, constructor signatures, dtype registrations outside lambdas, UnionSerializer / UnionConverter expressions, `from .types import` lists; "
+                                            "a class use is a dotted name whose head is PascalCase or a namespace identifier (generated class names are model names, which the family spells in PascalCase)"],
+                               desc="the complete real python.Generate on the shared package family, emitted Python read back: in every types.py no class is defined twice (a second "
+                                    "definition replaces the first and its tags); every class name evaluated at import time (constructor defaults and annotations, alias right-hand sides, "
+                                    "eager dtype registrations) is bound in the types module it comes from and every `X.Tag` is an attribute the class bound to X has; every "
+                                    "UnionSerializer / UnionConverter of binary.py / ndjson.py is built for a class that resolves and all its options name tags of that class; every name "
+                                    "imported from .types by __init__ / protocols / binary / ndjson is bound there")),
         (G, "gosym_part", dict(name="c08_cpp_package", entry="internal/zzverif.C08CppPackage", args_quick=(0,), args_thorough=(1,),
                                extra_quick=("-max-steps", "40000000"), extra_thorough=("-max-steps", "40000000", "-max-paths", "100000"),
                                required_sites=("generation-does-not-panic", "generation-succeeds", "quoted-include-resolves", "no-include-of-a-disabled-format",
